@@ -271,7 +271,8 @@ func TestVerif_C02(t *testing.T) {
 								}
 								in := Intent{Origin: o, Method: m, Headers: hs, CredMode: cm, PNATarget: pt}
 								c02RunCase(r, l, e, dbg, &in, nil)
-								if len(hs) > 0 {
+								// thorough: every cell with the canonical rendering, perturbed renderings on a hashed 1/6 of the cells
+								if len(hs) > 0 && (stride > 1 || r.visit(cell, 6)) {
 									names := canonicalACRHNames(hs)
 									for k := 0; k < pertPerCell; k++ {
 										maxEmpty := 3
@@ -292,7 +293,7 @@ func TestVerif_C02(t *testing.T) {
 		}
 	})
 	if stride == 1 {
-		r.Exhaustive("the full configuration product x every intent cell (canonical ACRH rendering); perturbations are PRNG-sampled per cell")
+		r.Exhaustive("the full configuration product x every intent cell (canonical ACRH rendering); perturbed renderings (3 per cell) on a hashed 1/6 of the cells")
 	}
 	r.mu.Lock()
 	r.counters["browser_success"], r.counters["browser_failure"] = r.counters["n1"], r.counters["n2"]
